@@ -8,6 +8,7 @@ CONSTANTS
   Styles = {"fresh"}
   MaxPos = 0
   MaxSteps = 99
+  NullRule = TRUE
   Slice = 0
   NSlices = 1
 SPECIFICATION Spec
